@@ -269,8 +269,8 @@ pub fn check_case(case: &Case) -> CaseResult {
 fn op() -> impl Strategy<Value = Op> {
     prop_oneof![
         8 => Just(Op::Snapshot),
-        6 => (1u64..7).prop_map(Op::Update),
-        4 => (1u64..7).prop_map(Op::TryUpdate),
+        6 => prop_oneof![12 => 1u64..7, 1 => Just(0u64), 1 => Just(u64::MAX), 1 => Just(u64::MAX - 1)].prop_map(Op::Update),
+        4 => prop_oneof![12 => 1u64..7, 1 => Just(0u64), 1 => Just(u64::MAX)].prop_map(Op::TryUpdate),
         2 => Just(Op::Sequence),
         // Rejected updates (the writer panics while it holds the lock, which poisons it).
         1 => (1u64..7).prop_map(Op::UpdateBad),
